@@ -35,7 +35,7 @@ def run(tier, seed):
                        f"uses content that was never signed")
             elif o["accepted"] and kind in ("change", "delete", "role-swap"):
                 bad = f"{r['role']}: mutation '{kind}' at {r['path']} of the signed portion is accepted"
-        elif kind in ("reorder", "reformat", "extra-signature"):
+        elif kind in ("reorder", "reformat", "respell", "extra-signature"):
             if not o["accepted"]:
                 bad = f"{r['role']}: harmless transformation '{kind}' makes the document unacceptable: {o['cls']}"
         elif kind == "foreign":
